@@ -22,6 +22,7 @@ class Sim:
         self.n_updates = 0
         self.expect = None
         self.replaced = {}
+        self.aliases = {}
 
     # -- helpers ---------------------------------------------------------------------------------
     def obj(self, name):
@@ -42,10 +43,24 @@ class Sim:
             return self.obj(v[1])
         return [self.obj(n) for n in v[1]]
 
+    def as_read_from_the_model(self, name):
+        """The object as a user gets it when reading it from a link of the model (`step.jobs[0]`, `up.country`): a
+        wrapper; the raw object when nothing links to it."""
+        o = self.obj(name)
+        for w in getattr(o, "contextual_modeling_obj_containers", []):
+            if w.modeling_obj_container is not None:
+                return w
+        return o
+
     def _new_for(self, change):
         v = change["value"]
         if v[0] in ("ref", "refs"):
             return self._link_value(v)
+        if v[0] == "ref_read":
+            return self.as_read_from_the_model(v[1])
+        if v[0] == "refs_read":
+            # (names..., the last one as read from the model)
+            return [self.obj(n) for n in v[1][:-1]] + [self.as_read_from_the_model(v[1][-1])]
         if v[0] == "raw":
             return copy.deepcopy(v[1])
         if v[0] == "owned":
@@ -58,6 +73,7 @@ class Sim:
     def _mirror(self, change):
         """Record an accepted change of one attribute in the spec."""
         name, attr, v = change["obj"], change["attr"], change["value"]
+        self.aliases.pop((name, attr), None)     # re-assigned: an older reference no longer is the attribute
         o = self.spec["objs"][name]
         if v[0] == "none":
             v = ["e"]
@@ -186,6 +202,13 @@ class Sim:
             new_names = None
             self.expect = {"exc": type(e).__name__, "ret": None, "names": cur}
         lst = getattr(o, attr)
+        if op.get("alias") == "use":
+            # a reference to the list attribute taken before earlier in-place edits (`l = step.jobs; l.append(a);
+            # l.append(b)`): as long as the attribute has not been re-assigned, it is the list of the object
+            held = self.aliases.get((op["obj"], attr))
+            if held is not None:
+                lst = held
+        self.aliases[(op["obj"], attr)] = lst
         ret = None
         if m == "append":
             lst.append(self.obj(args[0]))
@@ -241,11 +264,13 @@ class Sim:
         o = self.obj(op["obj"])
         o.self_delete()
         self.forget(op["obj"])
+        self.aliases = {k_: v_ for k_, v_ in self.aliases.items() if k_[0] != op["obj"]}
 
     def op_noop(self, op):
         """Re-assign the current value of an input (equal-value edit)."""
         o = self.obj(op["obj"])
         v = self.sattrs(op["obj"])[op["attr"]]
+        self.aliases.pop((op["obj"], op["attr"]), None)
         if v[0] in ("ref", "refs"):
             setattr(o, op["attr"], self._link_value(v))
         else:
@@ -293,6 +318,8 @@ class Sim:
         o = self.obj(op["obj"])
         lst = getattr(o, op["attr"])
         bad = self.obj(op["bad"]) if isinstance(op["bad"], str) else op["bad"]
+        if op.get("as_read") and isinstance(op["bad"], str):
+            bad = self.as_read_from_the_model(op["bad"])
         m = op["method"]
         if m == "append":
             lst.append(bad)
@@ -465,6 +492,7 @@ class Sim:
         cur = getattr(o, attr)
         new = cur[op.get("start"):op.get("stop")] + [self.obj(n) for n in op.get("plus", [])]
         names = list(self.sattrs(op["obj"])[attr][1])[op.get("start"):op.get("stop")] + list(op.get("plus", []))
+        self.aliases.pop((op["obj"], attr), None)
         setattr(o, attr, new)
         self.sattrs(op["obj"])[attr] = ["refs", names]
 
@@ -502,6 +530,16 @@ class Sim:
             setattr(target, op["attr"], lst)
         elif op["method"] == "assign_list":
             setattr(target, op["attr"], list(getattr(target, op["attr"])) + [arg])
+        elif op["method"] == "assign_list_front":
+            setattr(target, op["attr"], [arg] + list(getattr(target, op["attr"])))
+        elif op["method"] == "insert0":
+            getattr(target, op["attr"]).insert(0, arg)
+        elif op["method"] == "setitem0":
+            lst = getattr(target, op["attr"])
+            if len(lst) == 0:
+                lst.append(arg)
+            else:
+                lst[0] = arg
         else:
             setattr(target, op["attr"], arg)
 
